@@ -925,6 +925,43 @@ Section Proofs.
         try (exists m; split; [exact H0 | reflexivity]); try apply dep_l_in.
   Qed.
 
+  (* invariant 9 (passes that start from empty requirement lists): the first edge of an artifact key was
+     decided by findMatch on the one-element list of its own declaration *)
+  Definition Inv9 (st : pst) : Prop :=
+    forall k, reqs_of R0 k = [] -> (forall ne, In ne (g_errs (s_g st)) -> ne_mk ne <> k) ->
+      forall e0 rest, filter (on_k k) (g_edges (s_g st)) = e0 :: rest ->
+        exists m, find_match [e_dvk e0] = Ok m /\ e_to e0 = v_vk m.
+
+  Lemma Inv9_add_edge st st' e m :
+    Inv5 st -> Inv9 st ->
+    g_edges (s_g st') = g_edges (s_g st) ++ [e] -> g_errs (s_g st') = g_errs (s_g st) ->
+    e_to e = v_vk m -> (reqs_of (s_reqs st) (e_mk e) = [] -> find_match [e_dvk e] = Ok m) -> Inv9 st'.
+  Proof.
+    intros I5 I9 He Hr Hto Hfm k HR0 Hnoerr e0 rest. rewrite He, filter_snoc. rewrite Hr in Hnoerr.
+    unfold on_k at 2. destruct (mkey_dec (e_mk e) k) as [Ek|Nk].
+    - destruct (filter (on_k k) (g_edges (s_g st))) as [|e0' rest'] eqn:F; simpl.
+      + intros E; inversion E; subst e0 rest. exists m. split; auto. apply Hfm. subst k.
+        apply (i5_none _ I5); auto. intros x Hx Ex. apply (filter_nil_all _ _ F) in Hx. unfold on_k in Hx.
+        destruct (mkey_dec (e_mk x) (e_mk e)); congruence.
+      + intros E; inversion E; subst e0'. eapply I9; eauto.
+    - rewrite app_nil_r. intros F. eapply I9; eauto.
+  Qed.
+
+  Lemma Inv9_dep first cur st d st' : Inv5 st -> Inv9 st -> dep_go first cur st d st' -> Inv9 st'.
+  Proof.
+    intros I5 I9 Hgo.
+    assert (Hone : forall m, find_match (dep_l first st d) = Ok m ->
+                             reqs_of (s_reqs st) (dep_k d) = [] -> find_match [dep_dvk first d] = Ok m).
+    { intros m Fm E. unfold dep_l, dep_st1 in Fm. simpl in Fm. rewrite note_req_hd in Fm; auto. }
+    inversion Hgo; subst; clear Hgo.
+    - exact I9.
+    - intros k HR0 Hnoerr e0 rest F. simpl in *. eapply I9; eauto.
+      intros ne Hne. apply Hnoerr. apply in_or_app; auto.
+    - apply (Inv9_add_edge st _ (dep_edge first cur d m EExisting) m); auto; try (apply Hone; auto).
+    - apply (Inv9_add_edge st _ (dep_edge first cur d m EShared) m); auto; try (apply Hone; auto).
+    - apply (Inv9_add_edge st _ (dep_edge first cur d m ECreated) m); auto; try (apply Hone; auto).
+  Qed.
+
   Lemma Inv5_pop st rest : Inv5 st -> Inv5 (set_todo st rest).
   Proof. intros []. constructor; auto. Qed.
 
@@ -935,6 +972,51 @@ Section Proofs.
     - intros k _ _ e0 rest F. discriminate.
   Qed.
   End Inv5.
+
+  (* ================================================================ invariant 10: the LAST edge of an artifact key
+     was decided by findMatch on the whole current requirement list of the key (requirement lists change only when
+     a declaration of the key is processed); holds for every pass, whatever the lists it starts from *)
+  Definition Inv10 (st : pst) : Prop :=
+    forall k, (forall ne, In ne (g_errs (s_g st)) -> ne_mk ne <> k) ->
+      forall es el, filter (on_k k) (g_edges (s_g st)) = es ++ [el] ->
+        exists m, find_match (reqs_of (s_reqs st) k) = Ok m /\ e_to el = v_vk m.
+
+  Lemma Inv10_add_edge st st' e m :
+    Inv10 st ->
+    (forall k', k' <> e_mk e -> reqs_of (s_reqs st') k' = reqs_of (s_reqs st) k') ->
+    find_match (reqs_of (s_reqs st') (e_mk e)) = Ok m -> e_to e = v_vk m ->
+    g_edges (s_g st') = g_edges (s_g st) ++ [e] -> g_errs (s_g st') = g_errs (s_g st) -> Inv10 st'.
+  Proof.
+    intros I10 Hoth Hfm Hto He Hr k Hnoerr es el. rewrite He, filter_snoc. rewrite Hr in Hnoerr.
+    unfold on_k at 2. destruct (mkey_dec (e_mk e) k) as [Ek|Nk].
+    - intros E. apply app_inj_tail in E. destruct E as [_ <-]. subst k. exists m. auto.
+    - rewrite app_nil_r. intros F. rewrite Hoth; auto. eapply I10; eauto.
+  Qed.
+
+  Lemma Inv10_dep first cur st d st' : Inv10 st -> dep_go first cur st d st' -> Inv10 st'.
+  Proof.
+    intros I10 Hgo.
+    assert (Hoth : forall k', k' <> dep_k d -> reqs_of (s_reqs (dep_st1 first st d)) k' = reqs_of (s_reqs st) k').
+    { intros k' N. unfold dep_st1; simpl. now apply note_req_other. }
+    inversion Hgo; subst; clear Hgo.
+    - exact I10.
+    - intros k Hnoerr es el F. simpl in *.
+      assert (Nk : k <> dep_k d).
+      { intros ->. apply (Hnoerr (mkNErr (n_vk cur) (dep_dvk first d) (dep_k d))); [apply in_or_app; simpl; auto | reflexivity]. }
+      rewrite (Hoth k Nk). eapply I10; eauto. intros ne Hne. apply Hnoerr. apply in_or_app; auto.
+    - apply (Inv10_add_edge st _ (dep_edge first cur d m EExisting) m); auto.
+    - apply (Inv10_add_edge st _ (dep_edge first cur d m EShared) m); auto.
+    - apply (Inv10_add_edge st _ (dep_edge first cur d m ECreated) m); auto.
+  Qed.
+
+  Lemma bfs_first_inv10 R0 fuel st' :
+    bfs fuel true mgt (init_st root R0) = (st', Go) -> Inv10 st'.
+  Proof.
+    intros H.
+    apply (lift_bfs_first Inv10 (fun _ _ _ => True)) with (fuel := fuel) (reqs := R0); auto.
+    - intros first cur st d st1 I10 _ Hok Hgo. split; [eapply Inv10_dep; eauto | exact I].
+    - intros k _ es el F. simpl in F. destruct es; discriminate.
+  Qed.
 
   (* ================================================================ all invariants together, for one pass *)
   Definition InvAll (R0 : reqmap) (st : pst) : Prop := Inv1 st /\ Inv3 st /\ Inv4 st /\ Inv5 R0 st.
@@ -964,6 +1046,67 @@ Section Proofs.
     - destruct (Inv1_init R0) as [_ A]. destruct (Inv4_init R0) as [_ B].
       assert (E : Cur3 (mkNode (root_mkey root) root false None) (set_todo (init_st root R0) [])) by (intros s []).
       unfold CurAll. tauto.
+  Qed.
+
+  (* ================================================================ invariant 8: what a shared-node edge is.
+     An edge made through the nodes[match.VersionKey] shortcut points to a node that was created for ANOTHER
+     artifact key (or to the root, for a key that is not the root's). *)
+  Definition shared_other (g : graph) (e : edge) : Prop :=
+    (e_to e = root /\ e_mk e <> root_mkey root) \/
+    (exists s, In s (g_edges g) /\ e_kind s = ECreated /\ e_to s = e_to e /\ e_mk s <> e_mk e).
+  Definition Inv8 (st : pst) : Prop :=
+    forall e, In e (g_edges (s_g st)) -> e_kind e = EShared -> shared_other (s_g st) e.
+
+  Lemma shared_other_mono g g' e : incl (g_edges g) (g_edges g') -> shared_other g e -> shared_other g' e.
+  Proof.
+    intros Hi [H|[s [A B]]]; [left; auto|]. right. exists s. split; auto.
+  Qed.
+
+  Lemma Inv8_dep first cur st d st' :
+    Inv1 st -> Inv8 st -> dep_go first cur st d st' -> Inv8 st'.
+  Proof.
+    intros I1 I8 Hgo. inversion Hgo; subst; clear Hgo.
+    - exact I8.
+    - intros e He K. simpl in He. apply (I8 e He K).
+    - intros e He K. simpl in He. inapp He.
+      + eapply shared_other_mono; [|apply (I8 e He K)]. simpl. apply incl_appl, incl_refl.
+      + subst e. discriminate.
+    - intros e He K. simpl in He. inapp He.
+      + eapply shared_other_mono; [|apply (I8 e He K)]. simpl. apply incl_appl, incl_refl.
+      + subst e. simpl.
+        destruct (vkey_dec (v_vk m) root) as [Er|Nr].
+        * left. split; auto. simpl. intros Ek. apply H1. rewrite Ek, Er. apply (i1_conc_root _ I1).
+        * right. destruct (i1_node_created _ I1 (v_vk m) H3 Nr) as [s [Hs [Ks Ts]]].
+          exists s. split; [simpl; apply in_or_app; auto|]. split; auto. split; auto.
+          simpl. intros Ek. apply H1. rewrite <- Ek, <- Ts. apply (i1_edge_conc _ I1); auto. rewrite Ks. discriminate.
+    - intros e He K. simpl in He. inapp He.
+      + eapply shared_other_mono; [|apply (I8 e He K)]. simpl. apply incl_appl, incl_refl.
+      + subst e. discriminate.
+  Qed.
+
+  Lemma bfs_first_inv8 R0 fuel st' :
+    bfs fuel true mgt (init_st root R0) = (st', Go) -> Inv8 st'.
+  Proof.
+    intros H.
+    assert (G : Inv1 st' /\ Inv8 st'); [|tauto].
+    apply (lift_bfs_first (fun st => Inv1 st /\ Inv8 st) Cur1) with (fuel := fuel) (reqs := R0); auto.
+    - intros first cur st d st1 [I1 I8] C1 Hok Hgo.
+      destruct (Inv1_dep _ _ _ _ _ I1 C1 Hok Hgo) as [I1' C1'].
+      pose proof (Inv8_dep _ _ _ _ _ I1 I8 Hgo). tauto.
+    - intros st cur rest [I1 I8] T.
+      destruct (Inv1_pop _ _ _ I1 T) as [I1' C1']. split; [split; auto|auto].
+    - destruct (Inv1_init R0) as [A _]. split; auto. intros e [].
+    - destruct (Inv1_init R0) as [_ A]. exact A.
+  Qed.
+
+  Lemma bfs_first_inv9 R0 fuel st' :
+    reqs_wf R0 -> bfs fuel true mgt (init_st root R0) = (st', Go) -> Inv5 R0 st' /\ Inv9 R0 st'.
+  Proof.
+    intros W H.
+    apply (lift_bfs_first (fun st => Inv5 R0 st /\ Inv9 R0 st) (fun _ _ _ => True)) with (fuel := fuel) (reqs := R0); auto.
+    - intros first cur st d st1 [I5 I9] _ Hok Hgo. split; [split|exact I]; [eapply Inv5_dep | eapply Inv9_dep]; eauto.
+    - intros st cur rest [I5 I9] T. split; [split|auto]; [now apply Inv5_pop | exact I9].
+    - split; [now apply Inv5_init|]. intros k _ _ e0 rest F. discriminate.
   Qed.
 
   (* requirement lists stay well formed through any step, whatever the outcome *)
@@ -1773,6 +1916,90 @@ Section Proofs.
     destruct (thm_ghost _ _ _ H e1 H1) as [M1 [_ P1]]. destruct (thm_ghost _ _ _ H e2 H2) as [M2 [_ P2]].
     destruct (thm_one_version _ _ _ H) as [T _]. apply T; auto.
     rewrite M1, M2, <- (P1 VF VsF), <- (P2 VF VsF). exact Ek.
+  Qed.
+
+  (* what the shared-node edges of a returned graph are *)
+  Lemma thm_shared_target fuel root g :
+    resolve fuel root = Ok g ->
+    forall e, In e (g_edges g) -> e_kind e = EShared -> shared_other root g e.
+  Proof.
+    intros H e He K. destruct (resolve_ok _ _ _ H) as [Ra [R [W [P _]]]].
+    apply pass_ok_inv in P. destruct P as [ver [imps [st [A [B [C [D E]]]]]]]. subst g.
+    apply (bfs_first_inv8 _ _ _ _ _ C); auto.
+  Qed.
+
+  (* every package occurs in the graph with one (classifier, type) only, and the root's package with the root's *)
+  Definition single_variant (root : vkey) (g : graph) : Prop :=
+    (forall e1 e2, In e1 (g_edges g) -> In e2 (g_edges g) ->
+                   mk_pk (e_mk e1) = mk_pk (e_mk e2) -> e_mk e1 = e_mk e2) /\
+    (forall e, In e (g_edges g) -> mk_pk (e_mk e) = vk_pk root -> e_mk e = root_mkey root).
+
+  (* one version per artifact WITHOUT the exception for shared-node edges, when no package occurs with two
+     (classifier, type) variants: there is then no shared-node edge at all *)
+  Lemma thm_one_version_single_variant fuel root g :
+    version_faithful -> versions_faithful -> resolve fuel root = Ok g -> single_variant root g ->
+    (forall e, In e (g_edges g) -> e_kind e <> EShared) /\
+    (forall e1 e2, In e1 (g_edges g) -> In e2 (g_edges g) -> e_mk e1 = e_mk e2 -> e_to e1 = e_to e2) /\
+    (forall e, In e (g_edges g) -> e_mk e = root_mkey root -> e_to e = root).
+  Proof.
+    intros VF VsF H [SV1 SV2].
+    assert (Pk : forall e, In e (g_edges g) -> mk_pk (e_mk e) = vk_pk (e_to e)).
+    { intros e He. destruct (thm_ghost _ _ _ H e He) as [M [_ P]]. rewrite M, (P VF VsF). reflexivity. }
+    assert (NS : forall e, In e (g_edges g) -> e_kind e <> EShared).
+    { intros e He K. destruct (thm_shared_target _ _ _ H e He K) as [[Er Nk]|[s [Hs [Ks [Ts Nk]]]]].
+      - apply Nk. apply SV2; [exact He | rewrite (Pk e He), Er; reflexivity].
+      - apply Nk. apply SV1; [exact Hs | exact He | rewrite (Pk s Hs), (Pk e He), Ts; reflexivity]. }
+    destruct (thm_one_version _ _ _ H) as [T1 [T2 _]]. split; [exact NS|]. split.
+    - intros e1 e2 H1 H2 Ek. apply T1; auto.
+    - intros e He Ek. apply T2; auto.
+  Qed.
+
+  (* when the first pass succeeds, the FIRST declaration of an artifact key decides alone: its edge points to
+     what findMatch answers on that single requirement (a soft requirement: that version; a range: the first
+     listed version inside it), and every other edge of the key that is not a shared-node edge follows it *)
+  Lemma thm_first_decides fuel root R g :
+    pass fuel root [] = (R, Ok g) ->
+    resolve fuel root = Ok g /\
+    forall k, (forall ne, In ne (g_errs g) -> ne_mk ne <> k) ->
+    forall e0 rest, filter (on_k k) (g_edges g) = e0 :: rest ->
+      (exists m, find_match [e_dvk e0] = Ok m /\ e_to e0 = v_vk m) /\
+      (e_kind e0 <> EShared -> forall e, In e rest -> e_kind e <> EShared -> e_to e = e_to e0).
+  Proof.
+    intros P. pose proof (resolve_first_pass _ _ _ _ P) as F.
+    assert (Hres : resolve fuel root = Ok g) by (unfold MavenRes.resolve; now rewrite F).
+    split; auto. intros k Hnoerr e0 rest Fil.
+    apply pass_ok_inv in P. destruct P as [ver [imps [st [A [B [C [D E]]]]]]]. subst g.
+    destruct (bfs_first_inv9 _ _ _ _ _ reqs_wf_nil C) as [_ I9]. split.
+    - apply (I9 k eq_refl Hnoerr e0 rest Fil).
+    - intros K0 e He Ke. destruct (thm_one_version _ _ _ Hres) as [T _].
+      assert (In0 : In e0 (filter (on_k k) (g_edges (s_g st)))) by (rewrite Fil; simpl; auto).
+      assert (In1 : In e (filter (on_k k) (g_edges (s_g st)))) by (rewrite Fil; simpl; auto).
+      apply filter_In in In0. apply filter_In in In1. destruct In0 as [A0 B0]. destruct In1 as [A1 B1].
+      unfold on_k in B0, B1. destruct (mkey_dec (e_mk e0) k); [|discriminate]. destruct (mkey_dec (e_mk e) k); [|discriminate].
+      apply T; auto. congruence.
+  Qed.
+
+  (* for EVERY number of passes: the last edge of an artifact key points to what findMatch answers on the FINAL
+     requirement list of the key, and so does every other edge of the key that is not a shared-node edge *)
+  Lemma thm_final_list_decides fuel root R g :
+    resolve_full fuel root = (R, Ok g) ->
+    forall k, (forall ne, In ne (g_errs g) -> ne_mk ne <> k) ->
+    forall es el, filter (on_k k) (g_edges g) = es ++ [el] ->
+      exists m, find_match (reqs_of R k) = Ok m /\ e_to el = v_vk m /\
+                (e_kind el <> EShared -> forall e, In e es -> e_kind e <> EShared -> e_to e = v_vk m).
+  Proof.
+    intros F k Hnoerr es el Fil.
+    assert (Hres : resolve fuel root = Ok g) by (unfold MavenRes.resolve; now rewrite F).
+    destruct (resolve_full_ok _ _ _ _ F) as [Ra [W P]].
+    apply pass_ok_inv in P. destruct P as [ver [imps [st [A [B [C [D E]]]]]]]. subst g R.
+    destruct (bfs_first_inv10 _ _ _ _ _ C k Hnoerr es el Fil) as [m [Fm Hto]].
+    exists m. split; auto. split; auto. intros Kl e He Ke. rewrite <- Hto.
+    destruct (thm_one_version _ _ _ Hres) as [T _].
+    assert (In0 : In el (filter (on_k k) (g_edges (s_g st)))) by (rewrite Fil; apply in_or_app; simpl; auto).
+    assert (In1 : In e (filter (on_k k) (g_edges (s_g st)))) by (rewrite Fil; apply in_or_app; auto).
+    apply filter_In in In0. apply filter_In in In1. destruct In0 as [A0 B0]. destruct In1 as [A1 B1].
+    unfold on_k in B0, B1. destruct (mkey_dec (e_mk el) k); [|discriminate]. destruct (mkey_dec (e_mk e) k); [|discriminate].
+    apply T; auto. congruence.
   Qed.
 
   (* the retry loop: a pass only appends to the requirement lists *)
